@@ -357,7 +357,7 @@ def mask_for_write(req):
             for i in range(dtype.size):
                 out.setdefault(base + i, None)
             for m in dtype.members:
-                if m.name.startswith(rpj.HIDDEN_PREFIXES):
+                if dtype.is_hidden(m):
                     continue
                 if m.is_bit:
                     cur = out.get(base + m.offset)
